@@ -21,7 +21,9 @@ RULE = (
     "chmod, wipe), materialised as plain files or through a first index checkout with the same link "
     "type, link list (copy, hardlink, symlink, reflink+copy, hardlink+copy, symlink+copy; passed to "
     "apply or configured on the cache), cache class, delete on/off, relink, update_meta, state on/off, "
-    "and cache objects removed (source unavailable). old = DataIndex of build_entries(compute_hash=True) "
+    "0-2 further cache storages registered at drawn target keys (a file's own key or a directory key; each "
+    "object lives only in the store its key resolves to), and cache objects removed (source unavailable; not "
+    "combined with further storages). old = DataIndex of build_entries(compute_hash=True) "
     "over the workspace, or (first compare only, drawn) index.build.build() without hashes. Oracle: os.walk of the workspace vs the flat model of T (files, bytes read "
     "through links, directories, x bits), a second compare(fresh old, freshly constructed target) with "
     "empty files_create/files_delete/dirs_create/dirs_delete, survival of prior files outside T when "
@@ -247,6 +249,8 @@ ONE_IN_3 = st.sampled_from([False, False, True])
 STORE = st.sampled_from(ops.STORE_KINDS)
 DELETE = st.sampled_from([True, True, True, False])
 OLD_HASHES = st.sampled_from([True, True, False])
+STORES = st.sampled_from([0, 0, 0, 1, 1, 2]).flatmap(
+    lambda n: st.lists(st.integers(0, 30), min_size=n, max_size=n))
 LINKS_ANY = st.sampled_from(LINKS)
 LINKS_COPY = st.sampled_from(COPY_LINKS)
 
@@ -297,6 +301,7 @@ def cases(draw):
         "missing": missing,
         "old_none": draw(st.booleans()),
         "old_hashes": draw(OLD_HASHES),
+        "stores": [] if missing else draw(STORES),
     }
 
 
@@ -333,8 +338,9 @@ def lazy_listing(model, node):
     return {"/".join(k[n:]): ref.ref_hash(b) for k, b in model.files.items() if k[:n] == node}
 
 
-def make_target(model, form, lazy, odb):
-    """A freshly constructed target index for the model."""
+def make_target(model, form, lazy, odb, extra=()):
+    """A freshly constructed target index for the model; `extra` = [(key, odb)]: further cache storages
+    registered at a file's own key or at a directory key (the storage map resolves by longest prefix)."""
     from dvc_data.hashfile.hash_info import HashInfo
     from dvc_data.hashfile.meta import Meta
     from dvc_data.index import DataIndex, DataIndexEntry, ObjectStorage
@@ -361,6 +367,8 @@ def make_target(model, form, lazy, odb):
         idx.add(DataIndexEntry(key=k, meta=Meta(size=len(data), isexec=k in model.execs),
                                hash_info=HashInfo("md5", ref.ref_hash(data))))
     idx.storage_map.add_cache(ObjectStorage((), odb))
+    for key, xodb in extra:
+        idx.storage_map.add_cache(ObjectStorage(key, xodb))
     return idx
 
 
@@ -496,20 +504,43 @@ def run_case(case, ctx):  # noqa: C901, PLR0912, PLR0915
             return None if case["via_odb"] else list(links)
 
         # ---- cache contents -----------------------------------------------------------------
+        # further cache storages at drawn target keys; an object lives only in the store its key
+        # resolves to (longest registered prefix). Not combined with the unavailable-source arm, so
+        # that "unavailable" stays "absent from the store the key resolves to".
+        extra = []
+        if not case["missing"]:
+            cands = T.sorted_files() + T.sorted_dirs()
+            for i in case.get("stores", []):
+                if cands and cands[i % len(cands)] not in [k for k, _ in extra]:
+                    k = cands[i % len(cands)]
+                    extra.append((k, ops.make_odb(case["store"], os.path.join(d, f"cache-x{len(extra)}"),
+                                                  **({"type": list(links)} if case["via_odb"] else {}))))
+
+        def odb_for(key):
+            best, blen = odb, -1
+            for sk, xodb in extra:
+                if key[:len(sk)] == sk and len(sk) > blen:
+                    best, blen = xodb, len(sk)
+            return best
+
         needed = {}  # oid -> bytes, the objects the target needs
         for k, data in T.files.items():
             needed[ref.ref_hash(data)] = data
+            put_object(odb_for(k), case["store"], ref.ref_hash(data), data)
         for node in lazy:
             listing = lazy_listing(T, node)
             needed[ref.ref_tree_oid(listing)] = ref.ref_tree_bytes(listing)
-        for oid, data in needed.items():
-            put_object(odb, case["store"], oid, data)
+            put_object(odb_for(node), case["store"], ref.ref_tree_oid(listing), ref.ref_tree_bytes(listing))
 
         # ---- prior workspace ----------------------------------------------------------------
         if case["prior_mode"] == "checkout" and (prior.files or prior.dirs):
+            odb0 = odb
+            if extra:  # keep the target's stores exclusive: the prior comes from a store of its own
+                odb0 = ops.make_odb(case["store"], os.path.join(d, "cache-prior"),
+                                    **({"type": list(links)} if case["via_odb"] else {}))
             for data in prior.files.values():
-                put_object(odb, case["store"], ref.ref_hash(data), data)
-            idx0 = make_target(prior, "explicit", [], odb)
+                put_object(odb0, case["store"], ref.ref_hash(data), data)
+            idx0 = make_target(prior, "explicit", [], odb0)
             errs0 = []
             apply(compare(None, idx0), ws, fs, update_meta=False, links=links_arg(),
                   onerror=lambda *a: errs0.append(a))
@@ -559,7 +590,7 @@ def run_case(case, ctx):  # noqa: C901, PLR0912, PLR0915
                 old = build_old(ws, state, root_entry=() in lazy, hashes=old_hashes)
             else:
                 classes.append("old=None")
-            target = make_target(T, form, lazy, odb)
+            target = make_target(T, form, lazy, odb, extra)
             reported = []
             diff = compare(old, target, delete=delete, relink=case["relink"])
             raised = None
@@ -617,7 +648,7 @@ def run_case(case, ctx):  # noqa: C901, PLR0912, PLR0915
 
             # ---- oracle: second compare ------------------------------------------------------
             old2 = build_old(ws, state, root_entry=() in lazy)
-            target2 = make_target(T, form, lazy, odb)
+            target2 = make_target(T, form, lazy, odb, extra)
             diff2 = compare(old2, target2, delete=delete)
             ignore_dirs = set()
             if form == "implicit":
@@ -653,6 +684,13 @@ def run_case(case, ctx):  # noqa: C901, PLR0912, PLR0915
     for flag in ("relink", "update_meta", "state", "via_odb"):
         if case[flag]:
             classes.append(flag)
+    if extra:
+        classes.append(f"extra-stores={len(extra)}")
+        if any(k in T.files for k, _ in extra):
+            classes.append("store-at-file-key")
+        owner = {k: id(odb_for(k)) for k in T.files}
+        if any(a[:-1] == b[:-1] and owner[a] != owner[b] for a in owner for b in owner):
+            classes.append("siblings-in-different-stores")
     if not old_hashes:
         classes.append("old-without-hashes")
         if f2d:
